@@ -593,6 +593,8 @@ impl Fleet {
         let mut last_error = None;
 
         for attempt in 0..self.options.retry_policy.max_attempts {
+            #[cfg(feature = "verif-hooks")]
+            crate::verif::probe("fleet.attempt");
             let timeout = node.config.timeout;
             let call = (|| {
                 let client = ensure_connected(&node)?;
@@ -646,6 +648,8 @@ impl Fleet {
         let mut last_error = None;
 
         for attempt in 0..self.options.retry_policy.max_attempts {
+            #[cfg(feature = "verif-hooks")]
+            crate::verif::probe("fleet.attempt");
             let timeout = node.config.timeout;
             let call = (|| {
                 let client = ensure_connected(&node)?;
